@@ -68,4 +68,30 @@ def fwrite3 (c : MemoCfg) (m : Memo) (sink : Sink) (s : PSettings) (v : Val3) (s
   | .error p => some (.error p)
   | .ok (_, xs) => some (printRun .v3 sink maxDigits s [xs])
 
+/-- `FindAll(s, pattern)` = `slices.Collect(Matches(s, pattern))` on a finite value: `All()` run to
+its end into the KMP automaton (every position for the empty pattern). `size` = number of digits
+of the view (the traversal is asked for one item more than that, so it ends by itself). -/
+def findAll3 (c : MemoCfg) (m : Memo) (v : Val3) (pat : List Int) (size : Nat) :
+    Option (Except Panic (Memo × List Int)) :=
+  if !v.assertsFiniteSeq then none else
+  match v.forward c m (size + 1) with
+  | .error p => some (.error p)
+  | .ok (m', feed) =>
+    match matchesAll pat.toArray (feed.map fun (p, d) => ((p : Int), (d : Int))) with
+    | .ok ms => some (.ok (m', ms))
+    | .error p => some (.error p)
+
+/-- `FindLastN(s, pattern, n)` = `slices.Collect(itertools.Take(BackwardMatches(s, pattern), n))`;
+`FindLast` is the head for n = 1. `Backward()` first reads ALL digits of the finite view
+(`FirstN`), then walks down; `Take` with n ≤ 0 ranges over nothing. -/
+def findLastN3 (c : MemoCfg) (m : Memo) (v : Val3) (pat : List Int) (n : Nat) (size : Nat) :
+    Option (Except Panic (Memo × List Int)) :=
+  if !v.assertsFiniteSeq then none else
+  if n = 0 then some (.ok (m, []))
+  else
+    let (m', back) := v.backward c m (size + 1)
+    match backwardMatchesAll pat.toArray (back.map fun (p, d) => ((p : Int), (d : Int))) with
+    | .ok ms => some (.ok (m', ms.take n))
+    | .error p => some (.error p)
+
 end Sqroot.Model
